@@ -15,6 +15,7 @@ def dispatch (j : Json) : R Json := do
   | "none" => pure (jObj [])
   | "csv" => DStatic.handleCsv j
   | "float" => DStatic.handleFloat j
+  | "zone" => DStatic.handleZone j
   | "dirsrc" => DJournal.handleDir j
   | "export" => DJournal.handleExport j
   | k => throw s!"unknown kind {k}"
